@@ -76,6 +76,19 @@ GENERIC_TYPE_LEVEL = [
     ('pub struct X<T>(#[default(Wr(Vec::new()))] pub Wr<T>, #[default(7)] pub u8);', '',
      'let x: X<ND> = Default::default(); x.1 == 7 && x.0 .0.is_empty()'),
 ]
+# raw identifiers that ARE keywords as names of the default variant and of its fields (they cannot lose their `r#`)
+GENERIC_TYPE_LEVEL += [
+    ('#[allow(non_camel_case_types)] pub enum X { A, #[default] r#type { r#fn: u8, #[default(3)] r#match: u8 }, C(u8) }', '',
+     'matches!(<X as Default>::default(), X::r#type { r#fn: 0, r#match: 3 })'),
+    ('#[allow(non_camel_case_types)] pub enum X { #[default] r#struct(u8, #[default(4)] u8), r#enum }', '',
+     'matches!(<X as Default>::default(), X::r#struct(0, 4))'),
+    ('#[allow(non_camel_case_types)] pub enum X { r#in(u8), #[default] r#mod }', '',
+     'matches!(<X as Default>::default(), X::r#mod)'),
+    ('#[allow(non_camel_case_types)] pub enum X { r#loop { r#if: u8 } }', '',
+     'matches!(<X as Default>::default(), X::r#loop { r#if: 0 })'),
+    ('#[allow(non_camel_case_types)] pub struct r#impl { pub r#for: u8, #[default(2)] pub r#while: u8 }', 'pub type X = r#impl;',
+     'matches!(<X as Default>::default(), r#impl { r#for: 0, r#while: 2 })'),
+]
 GENERIC_PRELUDE = '''pub struct ND;
 pub struct Wr<T>(pub Vec<T>);
 impl<T: Default> Default for Wr<T> { fn default() -> Self { Wr(vec![T::default()]) } }
